@@ -14,13 +14,15 @@ Vector.set_complex_step_mode (action CsSwitch) only changes which array the vect
 plane out of it); ARITHMETIC acts on the visible array (complex arithmetic on both planes in the mode, the hidden imaginary
 plane untouched out of it), SET (set_val, set_vec, x[name] = .., set_var) assigns the storage, so real data clear the
 imaginary part of the addressed entries in and out of the mode; complex operands are used in the mode.  Additional laws
-HiddenPlane, ModeSwitchFrame; a third family of histories (NextCS) is the alphabet of a complex step.  Histories of
-complex-allocated vectors start with the imaginary plane an earlier complex step has left behind.
+HiddenPlane, ModeSwitchFrame.  The histories come from three alphabets (variable fam): all actions, what a solver does
+around a scaling, and a complex step (NextCS: mode on / off, complex operands in the mode, real data set and combined out
+of it).  Histories of complex-allocated vectors start with the imaginary plane an earlier complex step has left behind.
+Quick tier: exhaustive depth 2 for real storage and 1 for complex storage; thorough: 2 for both.
 
 Binding: every history is replayed on the root vectors of a real Problem with the same layout and ref / ref0 / res_ref
 (_outputs with _residuals, _doutputs with _dresiduals as the second vector and vice versa) and everything is compared
-after every action: exactly where the expectation is an integer vector, to 1e-12 otherwise.  Both planes of the storage are compared after
-every action: in the mode asarray() is the complex array; out of the mode asarray() must be real and the hidden plane is
+after every action: exactly where the expectation is an integer vector, to 1e-12 otherwise.  Both planes of the storage are
+compared after every action: in the mode asarray() is the complex array; out of the mode asarray() must be real and the hidden plane is
 read by switching the mode on and off again (the specification says the switch changes no data).  Problems with complex
 vectors carry a Newton solver on the root so that the linear vectors are allocated complex as well."""
 import json
@@ -316,12 +318,12 @@ def run(ctx):
         mod = os.path.join(ctx.work, 'VectorReplay.tla')
         with open(mod, 'w') as fh:
             fh.write('---- MODULE VectorReplay ----\nEXTENDS VectorMC\nRLayouts == <<%s>>\nScript == %s\n'
-                     'ScriptInit == Init /\\ kind = %s /\\ alloc = %s /\\ cs = %s\n'
+                     'ScriptInit == InitAll /\\ kind = %s /\\ alloc = %s /\\ cs = %s\n'
                      'ScriptNext == Len(hist) < Len(Script) /\\ Do(Script[Len(hist) + 1])\n====\n'
                      % (to_tla(scn['layout']), to_tla(script), to_tla(b['kind']), to_tla(bool(b['alloc'])), to_tla(bool(b['cs0']))))
-        cfg = ctx.write_cfg('VectorReplay.cfg', 'CONSTANTS\n  Layouts <- RLayouts\n  Depth = %d\n  Record = TRUE\nINIT ScriptInit\n'
+        cfg = ctx.write_cfg('VectorReplay.cfg', 'CONSTANTS\n  Layouts <- RLayouts\n  Depth = %d\n  DepthC = %d\n  Record = TRUE\nINIT ScriptInit\n'
                             'NEXT ScriptNext\nINVARIANT TypeOK\nINVARIANT ViewsTile\nINVARIANT ScaleRoundTrip\nINVARIANT Export\n'
-                            'PROPERTY HiddenPlane\nPROPERTY ModeSwitchFrame\n' % len(script))
+                            'PROPERTY HiddenPlane\nPROPERTY ModeSwitchFrame\n' % (len(script), len(script)))
         r = ctx.tlc_check(mod, cfg, timeout=600, workers=1, coverage=False)
         got = r.exports('EXP')
         if len(got) != 1:
@@ -336,37 +338,36 @@ def run(ctx):
         ctx.sample({'replayed': ctx.replay, 'agrees': f is None, 'actions': script})
         ctx.rule = 'replay of one stored scenario (observables recomputed by TLC along the stored history)'
         return
-    head = 'CONSTANTS\n  Layouts <- AllLayouts\n  Depth = %d\n  Record = %s\nINIT %s\nNEXT Next\n'
+    head = 'CONSTANTS\n  Layouts <- AllLayouts\n  Depth = %d\n  DepthC = %d\n  Record = %s\nINIT %s\nNEXT %s\n'
     laws = ('INVARIANT TypeOK\nINVARIANT ViewsTile\nINVARIANT ScaleRoundTrip\nINVARIANT DualPairing\nINVARIANT NormLaw\n'
             'PROPERTY NamedWriteFrame\nPROPERTY OtherUntouched\nPROPERTY HiddenPlane\nPROPERTY ModeSwitchFrame\n')
     # 1. the design, exhaustively to a small depth (the observables are left out of the history: Record = FALSE).
     #    quick: real vectors to depth 2, complex-allocated vectors (in and out of the mode) to depth 1 - their longer
     #    histories are checked against the same laws along the simulated behaviours below; thorough: everything to depth 2
     # (run without -coverage, which costs about a third of the time; the vacuity guard is taken from the histories below)
-    layouts = None
-    for name, init, d in (('VectorMC.cfg', 'InitReal', 2), ('VectorMC_cs.cfg', 'InitCS', 1 if quick else 2)):
-        cfg = ctx.write_cfg(name, head % (d, 'FALSE', init) + 'VIEW View\n' + laws)
-        r = ctx.tlc_check('mech/VectorMC', cfg, timeout=3000, workers=workers, coverage=False)
-        layouts = r.exports('SCN')
+    cfg = ctx.write_cfg('VectorMC.cfg', head % (2, 1 if quick else 2, 'FALSE', 'InitAll', 'Next') + 'VIEW View\n' + laws)
+    r = ctx.tlc_check('mech/VectorMC', cfg, timeout=3000, workers=workers, coverage=False)
+    layouts = r.exports('SCN')
     if not layouts:
         raise MachineryError('no layout export')
     layouts = layouts[0]
-    # 2. random histories with the exact observables
+    # 2. random histories with the exact observables, drawn from three alphabets (variable fam, chosen with the initial
+    #    state): all actions / what a solver does around a scaling / a complex step
     depth = 5
-    fam = ((('Next', 'Init', 70), ('NextSolver', 'Init', 50), ('NextCS', 'InitCS', 80)) if quick else
-           (('Next', 'Init', 1200), ('NextSolver', 'Init', 800), ('NextCS', 'InitCS', 1000)))
-    beh = []
-    for nxt, init, num in fam:
-        cfg = ctx.write_cfg('VectorMC_sim_%s.cfg' % nxt, (head % (depth, 'TRUE', init)).replace('NEXT Next', 'NEXT ' + nxt) +
-                            'INVARIANT Export\n' + laws)
-        x = ctx.tlc_run('mech/VectorMC', cfg, simulate='num=%d' % num, depth=depth + 1, seed=ctx.seed + 1, workers=1,
-                        timeout=900 if quick else 3000)
-        if x.error or 'traces generated' not in x.out:
-            raise MachineryError('simulation failed:\n' + x.tail())
-        got = x.exports('EXP')
-        if len(got) < num:
-            raise MachineryError('simulation produced only %d behaviours:\n%s' % (len(got), x.tail()))
-        beh.extend(got)
+    num = 200 if quick else 3000
+    cfg = ctx.write_cfg('VectorMC_sim.cfg', head % (depth, depth, 'TRUE', 'Init', 'Next') + 'INVARIANT Export\n' + laws)
+    x = ctx.tlc_run('mech/VectorMC', cfg, simulate='num=%d' % num, depth=depth + 1, seed=ctx.seed + 1, workers=1,
+                    timeout=900 if quick else 3000)
+    if x.error or 'traces generated' not in x.out:
+        raise MachineryError('simulation failed:\n' + x.tail())
+    beh = x.exports('EXP')
+    if len(beh) < num:
+        raise MachineryError('simulation produced only %d behaviours:\n%s' % (len(beh), x.tail()))
+    fams = {}
+    for b in beh:
+        fams[b['fam'][:2]] = fams.get(b['fam'][:2], 0) + 1
+    if len(fams) < 3:
+        raise MachineryError('vacuous: families of histories %r' % (fams,))
     # vacuity guard: every action of the specification occurs in the histories that are bound to the implementation
     SPEC_OF = {'set_val': 'SetValScalar', 'set_val_arr': 'SetValArr', 'set_val_idx': 'SetValIdx', 'set_vec': 'SetVec', 'iadd': 'IAdd',
                'isub': 'ISub', 'iadd_const': 'IAddConst', 'imul': 'IMul', 'op_idx': 'OpIdx', 'imul_vec': 'IMulVec', 'add_scal_vec': 'AddScalVec',
@@ -412,11 +413,15 @@ def run(ctx):
                        behaviour=dict(b, h=b['h'][:f['step'] + 1]))
             ctx.violation(scn, f['want'], f['got'], '%s [%s of layout %s, step %d]' % (f['clause'], VECS[b['kind']][0], L['name'], f['step']),
                           snippet='replay with: ./check C33 --replay <this file>', info={'failed': f})
+    for k in ('cs:set out of the mode', 'cs:arithmetic in the mode'):
+        if not kinds.get(k):
+            raise MachineryError('vacuous: no history with %s (%r)' % (k[3:], kinds))
     ctx.impl = len(jobs)
     ctx.evaluations = nsteps
     ctx.exhaustive = False
     ctx.extra['actions_replayed'] = nsteps
     ctx.extra['behaviours_per_kind'] = kinds
+    ctx.extra['behaviours_per_family'] = fams
     for b in beh[:2]:
         ctx.sample({'layout': layouts[b['ly'] - 1]['name'], 'kind': b['kind'],
                     'alloc_complex': bool(b['alloc']),
